@@ -390,7 +390,7 @@ theorem trso_no_surrogate_iff_id_partial {topo : MG Name → Except Err (List Na
   rw [hcj]
   exact trsoF_iff_idAlg ht sep _ _ _ G _ hinv (initial_noSurr hZ) hc hmu
     ⟨hG, MG.acyclic_ranked hG hA, hYin, hY, hXY, trivial⟩
-    ⟨equiv_refl G, fun v => (mem_nsort v X).symm, fun v => (mem_nsort v Y).symm⟩
+    ⟨MG.equiv_refl G, fun v => (mem_nsort v X).symm, fun v => (mem_nsort v Y).symm⟩
 
 end Trso
 end Y0
